@@ -27,7 +27,10 @@ import (
 	. "github.com/evanw/esbuild/verifharness/hlib"
 )
 
-func main() { Main("c08", runC08) }
+func main() {
+	maybeRunChild()
+	Main("c08", runC08)
+}
 
 var u32grid = []uint32{0, 1, 2, 3, 7, 255, 256, 65535, 65536, 1<<31 - 1, 1 << 31, 1<<32 - 2, 1<<32 - 1}
 
